@@ -20,6 +20,7 @@ from ..model import MPoint, apply_update
 from ..session import Session, cfg_name, default_config, real_point
 from . import c06
 
+REPLAY_BY_RERUN = True  # workloads are deterministic in (tier, seed, shard): replay re-runs the shard
 SHARDS = {"quick": 8, "thorough": 16}
 TIMEOUT = {"quick": 900, "thorough": 3600}
 N_HIST = {"quick": 12, "thorough": 150}
